@@ -259,7 +259,7 @@ func runOne(t *testing.T, check string, seed int64, i int, bubble bool, wdSec in
 						// which goroutines of the bubble are left? (leak / hang triage)
 						var left []string
 						for _, blk := range strings.Split(dumpAll(), "\n\n") {
-							if strings.Contains(blk, "synctest bubble") && !strings.Contains(blk, "vf.runOne") {
+							if strings.Contains(blk, "synctest bubble") && !strings.Contains(blk, "synctest.Run") {
 								if len(blk) > 1200 {
 									blk = blk[:1200]
 								}
